@@ -354,11 +354,24 @@ func (a *c05) checkComparator(s *c05Sorter) {
 				okCmp = true
 			}
 			if !okCmp {
+				if !s.intForm && a.chronoKind(v, which) == -1 {
+					r.Violation("C05.S8-order", base+" return chronological order", a.pos(ret), "the comparator orders the entries by Next in REVERSE (later first): entries[0] is the latest activation, the timer is armed for it and every earlier activation is slept through")
+					continue
+				}
 				r.Undecide("C05.S8: %s returns a comparison the checker does not decode at %s", a.name(less), a.pos(ret))
 				continue
 			}
 			chk(zi == -1 && zj == -1, "C05.S8-order", base+" return chronological order", a.pos(ret), "chronological comparison only when both Next are set", msgCmp)
 		default:
+			// a computed chronological comparison: Compare(i, j) < 0, Sub(i, j) < 0, !(...) forms
+			if !s.intForm && a.chronoLess(ret.Results[0], which) {
+				chk(zi == -1 && zj == -1, "C05.S8-order", base+" return chronological order", a.pos(ret), "chronological comparison only when both Next are set", msgCmp)
+				continue
+			}
+			if !s.intForm && a.chronoKind(ret.Results[0], which) == -1 {
+				r.Violation("C05.S8-order", base+" return chronological order", a.pos(ret), "the comparator orders the entries by Next in REVERSE (later first): entries[0] is the latest activation, the timer is armed for it and every earlier activation is slept through")
+				continue
+			}
 			r.Undecide("C05.S8: %s returns a computed value at %s; comparator shape not decoded", a.name(less), a.pos(ret))
 		}
 	}
@@ -741,4 +754,105 @@ func c05LoopHeaderOf(b *ssa.BasicBlock) *ssa.BasicBlock {
 		}
 	}
 	return nil
+}
+
+// chronoLess: v is true exactly when <element i>.Next is before <element j>.Next,
+// written as a comparison of Compare/Sub with a constant (possibly negated).
+func (a *c05) chronoLess(v ssa.Value, which func(ssa.Value) int) bool {
+	return a.chronoKind(v, which) == 1
+}
+
+// chronoKind: +1 v is exactly "i before j", -1 v is exactly "i after j"
+// (reversed order), 0 not decoded.
+func (a *c05) chronoKind(v ssa.Value, which func(ssa.Value) int) int {
+	if call, ok := v.(*ssa.Call); ok && !call.Call.IsInvoke() && len(call.Call.Args) == 2 {
+		wa, wb := which(call.Call.Args[0]), which(call.Call.Args[1])
+		switch {
+		case c05IsTimeMethod(call, "Before") && wa == 1 && wb == 2, c05IsTimeMethod(call, "After") && wa == 2 && wb == 1:
+			return 1
+		case c05IsTimeMethod(call, "Before") && wa == 2 && wb == 1, c05IsTimeMethod(call, "After") && wa == 1 && wb == 2:
+			return -1
+		}
+		return 0
+	}
+	if a.chronoSign(v, which, -1) {
+		return 1
+	}
+	if a.chronoSign(v, which, 1) {
+		return -1
+	}
+	return 0
+}
+
+// chronoSign: v holds exactly when sign(<i>.Next - <j>.Next) == wantIJ.
+func (a *c05) chronoSign(v ssa.Value, which func(ssa.Value) int, wantIJ int64) bool {
+	cmp, ok := decodeCond(v, true)
+	if !ok {
+		return false
+	}
+	x, y, op := cmp.X, cmp.Y, cmp.Op
+	if _, isC := x.(*ssa.Const); isC {
+		x, y = y, x
+		switch op {
+		case token.LSS:
+			op = token.GTR
+		case token.GTR:
+			op = token.LSS
+		case token.LEQ:
+			op = token.GEQ
+		case token.GEQ:
+			op = token.LEQ
+		}
+	}
+	call, ok1 := x.(*ssa.Call)
+	k, ok2 := y.(*ssa.Const)
+	if !ok1 || !ok2 || k.Value == nil || call.Call.IsInvoke() || len(call.Call.Args) != 2 {
+		return false
+	}
+	isCompare, isSub := c05IsTimeMethod(call, "Compare"), c05IsTimeMethod(call, "Sub")
+	if !isCompare && !isSub {
+		return false
+	}
+	wa, wb := which(call.Call.Args[0]), which(call.Call.Args[1])
+	kv := k.Int64()
+	holds := func(d int64) bool {
+		switch op {
+		case token.EQL:
+			return d == kv
+		case token.NEQ:
+			return d != kv
+		case token.LSS:
+			return d < kv
+		case token.LEQ:
+			return d <= kv
+		case token.GTR:
+			return d > kv
+		case token.GEQ:
+			return d >= kv
+		}
+		return false
+	}
+	// d = first - second
+	want := wantIJ
+	if wa == 2 && wb == 1 {
+		want = -wantIJ
+	} else if !(wa == 1 && wb == 2) {
+		return false
+	}
+	samples := []int64{-1, 0, 1}
+	if isSub {
+		samples = []int64{-(1 << 40), -1, 0, 1, 1 << 40}
+	}
+	for _, d := range samples {
+		sign := int64(0)
+		if d < 0 {
+			sign = -1
+		} else if d > 0 {
+			sign = 1
+		}
+		if holds(d) != (sign == want) {
+			return false
+		}
+	}
+	return true
 }
